@@ -727,10 +727,17 @@ def gen_loops():
              "From PF Require Import Arr Stream.", ""]
     trees = {}
     for fn, name, ty in KERNELS:
-        tree = trees.setdefault(fn, parse(fn))
-        fd = find_def(tree, name, fn)
-        k = K(fn, fd, ty)
-        text = k.kernel()
+        # one kernel that is no longer understood must not take the others (which belong to other properties) with it: its
+        # definition is left out, so that exactly the equality proofs that mention it stop compiling
+        try:
+            tree = trees.setdefault(fn, parse(fn))
+            fd = find_def(tree, name, fn)
+            k = K(fn, fd, ty)
+            text = k.kernel()
+        except (GenError, SyntaxError) as e:
+            parts.append("(* NOT TRANSLATED: %s.%s -- %s *)" % (fn, name, str(e).replace("*)", "* )")))
+            parts.append("")
+            continue
         if k.uses_float and FLOAT_DECL not in parts:
             parts += [FLOAT_DECL, ""]
         parts.append(text)
